@@ -404,6 +404,15 @@ def run_check(prop, tier, seed, repo, replay=None, budget_s=None):
         json.dump(ev, f, indent=1, sort_keys=True, default=repr)
         f.write('\n')
 
+    # a run against another tree (TXDBUS_REPO=<worktree>) regenerated the shared Gen/*.lean from that tree:
+    # put the tables of /repo back so that nothing mutated is left behind (or committed by accident)
+    if os.path.abspath(repo) != '/repo' and os.path.isdir('/repo/txdbus') and not os.environ.get('VERIF_KEEP_TABLES'):
+        try:
+            with lake_lock():
+                regenerate_tables('/repo')
+        except Exception:
+            pass
+
     for ln in lines:
         print(ln)
     print('%s tier=%s seed=%d: obligations %d/%d, cases %d (distinct non-trivial %d), disagreements %d, '
